@@ -39,6 +39,9 @@ claimed = {
  "C12": ("decision tables of the name validator / conflict walk + gate typestate (narrow)", "DESIGN §3.3, §4 C12",
    "Component validity table exact; acceptance requires validated name, negative prefix lookup and a complete ancestor walk; name check is a gate before a table is renamed into place; unchecked only with SkipNameCheck; validation view hides deletions.",
    "completeness over histories and the cross-table check within one multi-table Addition are NOT decided"),
+ "C19": ("effect analysis over the read-API call graph (who may write what)", "DESIGN §3.5, §4 C19",
+   "Nothing reachable from the read API writes through a shared Reader/Merged/block source/block reader, into block bytes, or to package-level state; file handles are used positionally only; shared types hold no per-caller objects. Immutability after construction is the design's race-freedom argument and is decided for all code paths.",
+   "type-based sharing; user-supplied BlockSources and lock-protected caches are outside the rule"),
 }
 not_applicable_reason = {
  "C17": "quantifies over numeric size vectors and workload sizes (size classes, cumulative byte sums, 2*log2 N depth, N*log2 N cost); no clause is decidable from the shape of the code, and evaluating the chooser on enumerated vectors would be a runtime test (DESIGN §4 C17)",
